@@ -134,6 +134,11 @@ fn gen_topn(ctx: &mut Ctx, n_cases: u64) {
 /// Used to *guide* generation towards tie-breaking in the merge and to confirm the mechanism
 /// before a failing end-to-end case is attributed; never used as an oracle.
 fn pipeline_replica(n: usize, segs: &[Vec<(i64, u32)>], heap_segments: bool) -> Vec<(i64, (u32, u32))> {
+    // a panic of the real TopNComputer inside the replica must not take the harness down
+    catch_unwind(AssertUnwindSafe(|| pipeline_replica_inner(n, segs, heap_segments))).unwrap_or_default()
+}
+
+fn pipeline_replica_inner(n: usize, segs: &[Vec<(i64, u32)>], heap_segments: bool) -> Vec<(i64, (u32, u32))> {
     use std::cmp::Reverse;
     use std::collections::BinaryHeap;
     let mut merged: TopNComputer<i64, (u32, u32), NaturalComparator> = TopNComputer::new_with_comparator(n, NaturalComparator);
@@ -309,12 +314,21 @@ enum Q {
     Boost(Box<Q>, f32),
     Const(Box<Q>, f32),
     Nested(Vec<(u8, Q)>),
+    /// DisjunctionMaxQuery over plain term queries
+    DisMax(Vec<String>, f32),
     All,
 }
 
+/// `t:x` = term x of field `title`, `n:x` = of the no-freq field `basic`, plain `x` = of `body`
+fn term_of(fields: &Fields, t: &str) -> (Field, Term) {
+    if let Some(x) = t.strip_prefix("t:") { (fields.title, Term::from_field_text(fields.title, x)) }
+    else if let Some(x) = t.strip_prefix("n:") { (fields.basic, Term::from_field_text(fields.basic, x)) }
+    else { (fields.body, Term::from_field_text(fields.body, t)) }
+}
+
 impl Q {
-    fn build(&self, body: Field) -> Box<dyn Query> {
-        let tq = |t: &String| -> Box<dyn Query> { Box::new(TermQuery::new(Term::from_field_text(body, t), IndexRecordOption::WithFreqs)) };
+    fn build(&self, fields: &Fields) -> Box<dyn Query> {
+        let tq = |t: &String| -> Box<dyn Query> { Box::new(TermQuery::new(term_of(fields, t).1, IndexRecordOption::WithFreqs)) };
         match self {
             Q::Term(t) => tq(t),
             Q::Union(ts) => Box::new(BooleanQuery::new(ts.iter().map(|t| (Occur::Should, tq(t))).collect())),
@@ -326,9 +340,10 @@ impl Q {
                 v.extend(not.iter().map(|t| (Occur::MustNot, tq(t))));
                 Box::new(BooleanQuery::new(v))
             }
-            Q::Boost(q, b) => Box::new(BoostQuery::new(q.build(body), *b)),
-            Q::Const(q, s) => Box::new(ConstScoreQuery::new(q.build(body), *s)),
-            Q::Nested(cs) => Box::new(BooleanQuery::new(cs.iter().map(|(o, q)| (match o { 0 => Occur::Must, 1 => Occur::Should, _ => Occur::MustNot }, q.build(body))).collect())),
+            Q::Boost(q, b) => Box::new(BoostQuery::new(q.build(fields), *b)),
+            Q::Const(q, s) => Box::new(ConstScoreQuery::new(q.build(fields), *s)),
+            Q::Nested(cs) => Box::new(BooleanQuery::new(cs.iter().map(|(o, q)| (match o { 0 => Occur::Must, 1 => Occur::Should, _ => Occur::MustNot }, q.build(fields))).collect())),
+            Q::DisMax(ts, tie) => Box::new(tantivy::query::DisjunctionMaxQuery::with_tie_breaker(ts.iter().map(tq).collect(), *tie)),
             Q::All => Box::new(AllQuery),
         }
     }
@@ -336,7 +351,7 @@ impl Q {
     fn clauses(&self) -> usize {
         match self {
             Q::Term(_) | Q::All | Q::Const(_, _) => 1,
-            Q::Union(ts) | Q::Inter(ts) => ts.len(),
+            Q::Union(ts) | Q::Inter(ts) | Q::DisMax(ts, _) => ts.len(),
             Q::Mix { must, should, .. } => must.len() + should.len(),
             Q::Boost(q, _) => q.clauses(),
             Q::Nested(cs) => cs.iter().filter(|(o, _)| *o < 2).map(|(_, q)| q.clauses()).sum::<usize>().max(1),
@@ -349,13 +364,14 @@ impl Q {
             Q::Union(_) => "block_wand_single_scorer",
             Q::Inter(ts) if ts.len() >= 2 => "block_wand_intersection",
             Q::Inter(_) => "block_wand_single_scorer",
+            Q::DisMax(ts, _) if ts.len() >= 2 => "block_wand(dismax)",
             _ => "for_each_pruning_scorer",
         }
     }
     fn wand_terms(&self) -> Option<Vec<String>> {
         match self {
             Q::Term(t) => Some(vec![t.clone()]),
-            Q::Union(ts) | Q::Inter(ts) => Some(ts.clone()),
+            Q::Union(ts) | Q::Inter(ts) | Q::DisMax(ts, _) => Some(ts.clone()),
             _ => None,
         }
     }
@@ -368,6 +384,7 @@ impl Q {
             Q::Boost(q, b) => json!({"boost": b, "q": q.to_json()}),
             Q::Const(q, s) => json!({"const": s, "q": q.to_json()}),
             Q::Nested(cs) => json!({"nested": cs.iter().map(|(o, q)| json!([o, q.to_json()])).collect::<Vec<_>>()}),
+            Q::DisMax(ts, tie) => json!({"dismax": ts, "tie_bits": tie.to_bits()}),
             Q::All => json!("all"),
         }
     }
@@ -379,6 +396,7 @@ impl Q {
         if let Some(t) = v.get("term") { return Some(Q::Term(t.as_str()?.into())); }
         if let Some(t) = v.get("union") { return Some(Q::Union(strs(t)?)); }
         if let Some(t) = v.get("inter") { return Some(Q::Inter(strs(t)?)); }
+        if let Some(t) = v.get("dismax") { return Some(Q::DisMax(strs(t)?, f32::from_bits(v["tie_bits"].as_u64()? as u32))); }
         if let Some(b) = v.get("boost") { return Some(Q::Boost(Box::new(Q::from_json(&v["q"])?), b.as_f64()? as f32)); }
         if let Some(b) = v.get("const") { return Some(Q::Const(Box::new(Q::from_json(&v["q"])?), b.as_f64()? as f32)); }
         if let Some(n) = v.get("nested") {
@@ -434,6 +452,10 @@ impl CorpusSpec {
 
 struct Fields {
     body: Field,
+    /// second tokenized field with freqs (mixed-field unions)
+    title: Field,
+    /// tokenized field indexed with IndexRecordOption::Basic (no freqs, fieldnorms on)
+    basic: Field,
     id: Field,
     u: Field,
     i: Field,
@@ -446,6 +468,9 @@ struct Fields {
 fn schema() -> (Schema, Fields) {
     let mut sb = Schema::builder();
     let body = sb.add_text_field("body", TEXT);
+    let title = sb.add_text_field("title", TEXT);
+    let basic = sb.add_text_field("basic", tantivy::schema::TextOptions::default().set_indexing_options(
+        tantivy::schema::TextFieldIndexing::default().set_index_option(IndexRecordOption::Basic).set_fieldnorms(true)));
     let id = sb.add_u64_field("id", INDEXED | FAST);
     let u = sb.add_u64_field("u", FAST);
     let i = sb.add_i64_field("i", FAST);
@@ -453,7 +478,7 @@ fn schema() -> (Schema, Fields) {
     let d = sb.add_date_field("d", FAST);
     let s = sb.add_text_field("s", STRING | FAST);
     let ties = sb.add_u64_field("ties", FAST);
-    (sb.build(), Fields { body, id, u, i, f, d, s, ties })
+    (sb.build(), Fields { body, title, basic, id, u, i, f, d, s, ties })
 }
 
 fn field_norm_table() -> Vec<u32> {
@@ -566,6 +591,17 @@ fn build(spec: &CorpusSpec) -> Built {
         for j in 0..seg.docs {
             let mut doc = TantivyDocument::default();
             doc.add_text(fields.body, gen_body(&mut rng, seg.profile, j, &table));
+            if seg.profile < 3 {
+                // `title`: short, with freqs; `basic`: no freqs, frequent terms (>= 128 postings in
+                // the larger segments), lengths spread over several field-norm codes
+                let tl = 1 + rng.usize_below(5);
+                let title: Vec<&str> = (0..tl).map(|_| if rng.chance(1, 3) { "z" } else { TERMS[rng.usize_below(4)] }).collect();
+                doc.add_text(fields.title, title.join(" "));
+                let bmax = if rng.chance(1, 5) { 60 } else { 6 };
+                let bl = 1 + rng.usize_below(bmax);
+                let basic: Vec<&str> = (0..bl).map(|_| match rng.below(6) { 0 | 1 => "a", 2 => "b", 3 => "c", _ => "z" }).collect();
+                doc.add_text(fields.basic, basic.join(" "));
+            }
             doc.add_u64(fields.id, next_id);
             let all = j == 0;
             if all || !rng.chance(1, 10) {
@@ -778,11 +814,12 @@ fn addr_nat(a: &DocAddress) -> u64 {
 
 /// verified bound hypotheses on this searcher for the terms of a WAND query:
 /// (UB_max witness, UB_block witness)
-fn ub_check(searcher: &Searcher, body: Field, terms: &[String]) -> (Option<String>, Option<String>) {
+fn ub_check(searcher: &Searcher, fields: &Fields, terms: &[String]) -> (Option<String>, Option<String>) {
     let mut ubmax = None;
     let mut ubblock = None;
     for t in terms {
-        let term = Term::from_field_text(body, t);
+        let (body, term) = term_of(fields, t);
+        let nofreq = body == fields.basic;
         let w = match Bm25Weight::for_terms(searcher, &[term.clone()]) { Ok(w) => w, Err(_) => continue };
         let max = w.max_score();
         for (ord, sr) in searcher.segment_readers().iter().enumerate() {
@@ -799,6 +836,8 @@ fn ub_check(searcher: &Searcher, body: Field, terms: &[String]) -> (Option<Strin
                 let mut true_max = 0f32;
                 let mut arg = 0;
                 for (d, f) in docs.iter().zip(freqs.iter()) {
+                    // a field indexed without freqs scores every posting with tf = 1
+                    let f = if nofreq { &1u32 } else { f };
                     let s = w.score(fnr.fieldnorm_id(*d), *f);
                     if s > max && ubmax.is_none() {
                         ubmax = Some(format!("term {t:?}: doc ({ord},{d}) tf={f} fieldnorm_id={} scores {s:?} > max_score {max:?}", fnr.fieldnorm_id(*d)));
@@ -818,6 +857,37 @@ fn ub_check(searcher: &Searcher, body: Field, terms: &[String]) -> (Option<Strin
     (ubmax, ubblock)
 }
 
+/// Signature of the recorded defect "TermWeight::for_each_pruning runs block_wand_single_scorer on
+/// a term whose field has no freqs": the field is indexed with IndexRecordOption::Basic and some
+/// block of the term's postings has a block_max_score of exactly 0 (no block-WAND metadata is
+/// written without freqs; the last block's maximum is computed from term freqs that were never
+/// decoded) although its documents score > 0.
+fn nofreq_signature(searcher: &Searcher, fields: &Fields, t: &str) -> Option<String> {
+    let (field, term) = term_of(fields, t);
+    if field != fields.basic {
+        return None;
+    }
+    let w = Bm25Weight::for_terms(searcher, &[term.clone()]).ok()?;
+    for (ord, sr) in searcher.segment_readers().iter().enumerate() {
+        let inv = sr.inverted_index(field).ok()?;
+        let fnr = sr.get_fieldnorms_reader(field).ok()?;
+        let Ok(Some(mut bp)) = inv.read_block_postings(&term, IndexRecordOption::WithFreqs) else { continue };
+        loop {
+            let docs = bp.docs().to_vec();
+            if docs.is_empty() {
+                break;
+            }
+            let bm = bp.block_max_score(&fnr, &w);
+            let best = docs.iter().map(|d| w.score(fnr.fieldnorm_id(*d), 1)).fold(0f32, f32::max);
+            if bm == 0.0 && best > 0.0 {
+                return Some(format!("field `basic` is indexed without freqs; segment {ord}: the block of {} postings ending at doc {} has block_max_score 0 although its documents score up to {best:?}", docs.len(), docs[docs.len() - 1]));
+            }
+            bp.advance();
+        }
+    }
+    None
+}
+
 struct QueryEval {
     q: Q,
     query: Box<dyn Query>,
@@ -830,30 +900,9 @@ fn ulp_tol(clauses: usize, a: f32, b: f32) -> f32 {
     4.0 * clauses as f32 * f32::EPSILON * a.abs().max(b.abs()).max(f32::MIN_POSITIVE)
 }
 
-#[allow(clippy::too_many_arguments)]
-fn check_search(ctx: &mut Ctx, spec: &CorpusSpec, built: &Built, searcher: &Searcher, threads: usize, qe: &QueryEval, kind: &Kind, k: usize, o: usize) -> bool {
-    let case = json!({"kind": "search", "corpus": spec.to_json(), "query": qe.q.to_json(), "collector": kind_to_json(kind), "k": k, "offset": o, "threads": threads, "segment_order": segment_order(searcher)});
-    let keys = keys_of(searcher, kind, &qe.hits);
-    let mut all: Vec<(Key, u64)> = keys.into_iter().zip(qe.hits.iter().map(|(s, d, _)| ((*s as u64) << 32) | *d as u64)).collect();
-    all.sort_by(|a, b| kind.cmp(&a.0, &b.0).then(a.1.cmp(&b.1)));
-    let expected: Vec<(Key, u64)> = all.iter().skip(o).take(k).cloned().collect();
-    let exact = !kind.uses_score() || qe.q.clauses() <= 1;
-    ctx.report.count(&format!("collector:{}", kind.name().split('(').next().unwrap()));
-    ctx.report.count(&format!("path:{}", if *kind == Kind::Score { qe.q.path() } else { "no-pruning" }));
-    ctx.report.count(if o == 0 { "offset:0" } else if o >= all.len() { "offset:beyond-end" } else { "offset:inside" });
-    ctx.report.count(if k >= all.len() { "k:>=matches" } else if k == 1 { "k:1" } else { "k:other" });
-    ctx.report.count(&format!("threads:{threads}"));
-    let canon = format!("{}|{}|{}|{k}|{o}|{threads}", spec.to_json(), qe.q.to_json(), kind.name());
-    let nontrivial = all.len() > k + o && spec.segs.len() >= 1 && !all.is_empty();
-    ctx.report.case(&canon, nontrivial);
-    let real = match run_real(searcher, qe.query.as_ref(), kind, k, o) {
-        Ok(r) => r,
-        Err(e) => {
-            ctx.report.violation("oracle", if e == "panic" { "C06:search-panic" } else { "C06:search-error" }, format!("TopDocs({k}, offset {o}) by {} on {}: {e}", kind.name(), qe.q.to_json()), case);
-            return false;
-        }
-    };
-    let real: Vec<(Key, u64)> = real.into_iter().map(|(k, a)| (k, addr_nat(&a))).collect();
+/// compare a TopDocs result with the expected slice of the exhaustive list: exactly, or (float
+/// sums over `n` clauses) rank by rank within the tolerance
+fn compare_result(all: &[(Key, u64)], expected: &[(Key, u64)], real: &[(Key, u64)], o: usize, exact: bool, n: usize) -> Option<String> {
     let mut wrong: Option<String> = None;
     if real.len() != expected.len() {
         wrong = Some(format!("returned {} entries, expected {}", real.len(), expected.len()));
@@ -865,7 +914,6 @@ fn check_search(ctx: &mut Ctx, spec: &CorpusSpec, built: &Built, searcher: &Sear
         // float sums over several clauses: ranks must agree up to the tolerance, each returned
         // key must be the document's own key up to the tolerance, no document twice
         let own: std::collections::HashMap<u64, f32> = all.iter().map(|(k, a)| (*a, if let Key::Sc(s) = k { *s } else { 0.0 })).collect();
-        let n = qe.q.clauses();
         let mut seen = std::collections::HashSet::new();
         for p in 0..real.len() {
             let (Key::Sc(rs), Key::Sc(es)) = (&real[p].0, &expected[p].0) else { wrong = Some("key type".into()); break };
@@ -892,6 +940,34 @@ fn check_search(ctx: &mut Ctx, spec: &CorpusSpec, built: &Built, searcher: &Sear
             }
         }
     }
+    wrong
+}
+
+#[allow(clippy::too_many_arguments)]
+fn check_search(ctx: &mut Ctx, spec: &CorpusSpec, built: &Built, searcher: &Searcher, threads: usize, qe: &QueryEval, kind: &Kind, k: usize, o: usize) -> bool {
+    let case = json!({"kind": "search", "corpus": spec.to_json(), "query": qe.q.to_json(), "collector": kind_to_json(kind), "k": k, "offset": o, "threads": threads, "segment_order": segment_order(searcher)});
+    let keys = keys_of(searcher, kind, &qe.hits);
+    let mut all: Vec<(Key, u64)> = keys.into_iter().zip(qe.hits.iter().map(|(s, d, _)| ((*s as u64) << 32) | *d as u64)).collect();
+    all.sort_by(|a, b| kind.cmp(&a.0, &b.0).then(a.1.cmp(&b.1)));
+    let expected: Vec<(Key, u64)> = all.iter().skip(o).take(k).cloned().collect();
+    let exact = !kind.uses_score() || qe.q.clauses() <= 1;
+    ctx.report.count(&format!("collector:{}", kind.name().split('(').next().unwrap()));
+    ctx.report.count(&format!("path:{}", if *kind == Kind::Score { qe.q.path() } else { "no-pruning" }));
+    ctx.report.count(if o == 0 { "offset:0" } else if o >= all.len() { "offset:beyond-end" } else { "offset:inside" });
+    ctx.report.count(if k >= all.len() { "k:>=matches" } else if k == 1 { "k:1" } else { "k:other" });
+    ctx.report.count(&format!("threads:{threads}"));
+    let canon = format!("{}|{}|{}|{k}|{o}|{threads}", spec.to_json(), qe.q.to_json(), kind.name());
+    let nontrivial = all.len() > k + o && spec.segs.len() >= 1 && !all.is_empty();
+    ctx.report.case(&canon, nontrivial);
+    let real = match run_real(searcher, qe.query.as_ref(), kind, k, o) {
+        Ok(r) => r,
+        Err(e) => {
+            ctx.report.violation("oracle", if e == "panic" { "C06:search-panic" } else { "C06:search-error" }, format!("TopDocs({k}, offset {o}) by {} on {}: {e}", kind.name(), qe.q.to_json()), case);
+            return false;
+        }
+    };
+    let real: Vec<(Key, u64)> = real.into_iter().map(|(k, a)| (k, addr_nat(&a))).collect();
+    let mut wrong: Option<String> = compare_result(&all, &expected, &real, o, exact, qe.q.clauses());
     // the specification evaluated by the model on the same exhaustive list (ranks preserve the order)
     if wrong.is_none() && exact && all.len() <= 2500 {
         let mut ranks: Vec<i64> = Vec::with_capacity(all.len());
@@ -924,9 +1000,36 @@ fn check_search(ctx: &mut Ctx, spec: &CorpusSpec, built: &Built, searcher: &Sear
             extra = format!(" [{w}]");
         }
     }
+    // recorded defect: a term of a field indexed without freqs through block_wand_single_scorer
+    if key == "C06:topk-wrong" && *kind == Kind::Score {
+        if let Q::Term(t) = &qe.q {
+            if let Some(w) = nofreq_signature(searcher, &built.fields, t) {
+                key = "C06:nofreq-term-blockmax-zero".into();
+                extra = format!(" [{w}]");
+            }
+        }
+    }
+    // recorded defect: a dis-max over term queries goes through block_wand, which sums the clauses.
+    // Attributed only if the result IS the top-K of the clause sums (the same searcher's exhaustive
+    // scores of the union of the same terms).
+    if key == "C06:topk-wrong" && *kind == Kind::Score {
+        if let Q::DisMax(ts, _) = &qe.q {
+            let uq = Q::Union(ts.clone());
+            let union_hits = eval_queries(built, searcher, vec![uq]);
+            if let Some(u) = union_hits.first() {
+                let mut all_sum: Vec<(Key, u64)> = u.hits.iter().map(|(s, d, sc)| (Key::Sc(*sc), ((*s as u64) << 32) | *d as u64)).collect();
+                all_sum.sort_by(|a, b| kind.cmp(&a.0, &b.0).then(a.1.cmp(&b.1)));
+                let exp_sum: Vec<(Key, u64)> = all_sum.iter().skip(o).take(k).cloned().collect();
+                if compare_result(&all_sum, &exp_sum, &real, o, ts.len() <= 2, ts.len()).is_none() {
+                    key = "C06:dismax-topdocs-block-wand-sums".into();
+                    extra = " [the result is exactly the top-K of the SUMS of the matching clauses' scores, not of max + tie·rest]".into();
+                }
+            }
+        }
+    }
     if key == "C06:topk-wrong" && *kind == Kind::Score {
         if let Some(terms) = qe.q.wand_terms() {
-            let (ubmax, ubblock) = ub_check(searcher, built.fields.body, &terms);
+            let (ubmax, ubblock) = ub_check(searcher, &built.fields, &terms);
             // the single-scorer driver reads block bounds first (max_score only as a fallback),
             // the multi-scorer drivers select the pivot with max_score first
             let single = terms.len() == 1;
@@ -1040,16 +1143,23 @@ fn kind_from_json(v: &Value) -> Option<Kind> {
 
 fn gen_query(rng: &mut Rng) -> Q {
     let term = |rng: &mut Rng| -> String { TERMS[match rng.below(10) { 0..=3 => 0, 4 | 5 => 1, 6 => 2, 7 => 3, 8 => 4, _ => 5 }].to_string() };
+    // terms of the three tokenized fields: mostly `body`; `t:` = title (freqs), `n:` = basic (no freqs)
     let terms = |rng: &mut Rng, n: usize| -> Vec<String> {
         let mut ts: Vec<String> = TERMS.iter().map(|s| s.to_string()).collect();
+        ts.extend(["t:a", "t:b", "t:c", "n:a", "n:b"].iter().map(|s| s.to_string()));
         rng.shuffle(&mut ts);
+        // keep most queries on `body` only: the other fields appear in about a third of them
+        if !rng.chance(1, 3) { ts.retain(|t| !t.contains(':')); }
         ts.truncate(n);
         ts
     };
-    match rng.below(16) {
+    match rng.below(21) {
+        16 => Q::Term(["n:a", "n:b", "n:c", "t:a"][rng.usize_below(4)].to_string()),
+        17 | 18 => { let n = 2 + rng.usize_below(3); let mut ts = terms(rng, n); ts.retain(|t| !t.starts_with("n:")); if ts.len() < 2 { ts = vec!["a".into(), "b".into()]; } Q::DisMax(ts, [0.0f32, 0.3, 1.0][rng.usize_below(3)]) }
         0..=2 => Q::Term(term(rng)),
         3..=6 => { let n = 2 + rng.usize_below(4); Q::Union(terms(rng, n)) }
-        7 | 8 => { let n = 2 + rng.usize_below(2); Q::Inter(terms(rng, n)) }
+        7 | 8 => { let n = 2 + rng.usize_below(4); Q::Inter(terms(rng, n)) }
+        19 | 20 => { let mut ts: Vec<String> = TERMS[..5].iter().map(|s| s.to_string()).collect(); rng.shuffle(&mut ts); let n = 3 + rng.usize_below(3); ts.truncate(n); Q::Inter(ts) }
         9 => { let ts = terms(rng, 4); Q::Mix { must: ts[..1].to_vec(), should: ts[1..3].to_vec(), not: ts[3..].to_vec() } }
         10 => { let ts = terms(rng, 3); Q::Mix { must: vec![], should: ts[..2].to_vec(), not: ts[2..].to_vec() } }
         11 => Q::Boost(Box::new(Q::Term(term(rng))), [0.5f32, 2.0, 3.25][rng.usize_below(3)]),
@@ -1112,7 +1222,7 @@ fn gen_corpus(rng: &mut Rng, flavour: u64, thorough: bool) -> CorpusSpec {
 fn eval_queries(built: &Built, searcher: &Searcher, qs: Vec<Q>) -> Vec<QueryEval> {
     qs.into_iter()
         .filter_map(|q| {
-            let query = q.build(built.fields.body);
+            let query = q.build(&built.fields);
             let hits = catch_unwind(AssertUnwindSafe(|| searcher.search(query.as_ref(), &AllHits))).ok()?.ok()?;
             Some(QueryEval { q, query, hits })
         })
@@ -1283,7 +1393,7 @@ impl PolicyState {
 
 fn driver_case(ctx: &mut Ctx, spec: &CorpusSpec, built: &Built, searcher: &Searcher, q: &Q, policy: &Policy, initial: f32) {
     use tantivy::query::EnableScoring;
-    let query = q.build(built.fields.body);
+    let query = q.build(&built.fields);
     let Ok(weight) = query.weight(EnableScoring::enabled_from_searcher(searcher)) else { return };
     for (ord, reader) in searcher.segment_readers().iter().enumerate() {
         let case = json!({"kind": "driver", "corpus": spec.to_json(), "query": q.to_json(), "policy": format!("{policy:?}"), "initial_bits": initial.to_bits(), "segment_order": segment_order(searcher), "segment": ord});
@@ -1314,8 +1424,14 @@ fn driver_case(ctx: &mut Ctx, spec: &CorpusSpec, built: &Built, searcher: &Searc
             let p = (0..got.len().max(expected.len())).find(|i| got.get(*i) != expected.get(*i)).unwrap_or(0);
             let mut key = "C06:pruning-driver-differs-from-exhaustive".to_string();
             let mut extra = String::new();
-            if let Some(terms) = q.wand_terms() {
-                let (ubmax, ubblock) = ub_check(searcher, built.fields.body, &terms);
+            if let Q::Term(t) = q {
+                if let Some(w) = nofreq_signature(searcher, &built.fields, t) {
+                    key = "C06:nofreq-term-blockmax-zero".into();
+                    extra = format!(" [{w}]");
+                }
+            }
+            if let (Some(terms), true) = (q.wand_terms(), key == "C06:pruning-driver-differs-from-exhaustive") {
+                let (ubmax, ubblock) = ub_check(searcher, &built.fields, &terms);
                 let single = terms.len() == 1;
                 match (ubmax, ubblock) {
                     (_, Some(w)) if single => { key = "C06:blockmax-pair-wrong-avg-fieldnorm".into(); extra = format!(" [UB_block fails: {w}]"); }
@@ -1329,15 +1445,104 @@ fn driver_case(ctx: &mut Ctx, spec: &CorpusSpec, built: &Built, searcher: &Searc
     }
 }
 
+/// three to five scoring clauses: the float sums of the two paths may differ by rounding, so the
+/// callback keeps the threshold CONSTANT (no path dependence) and the comparison is by tolerance:
+/// every document scoring clearly above the threshold must be offered, nothing clearly below it,
+/// and every offered score must be the document's score up to the tolerance.
+fn driver_case_multi(ctx: &mut Ctx, spec: &CorpusSpec, built: &Built, searcher: &Searcher, q: &Q, threshold: f32) {
+    use tantivy::query::EnableScoring;
+    let query = q.build(&built.fields);
+    let Ok(weight) = query.weight(EnableScoring::enabled_from_searcher(searcher)) else { return };
+    let n = q.clauses();
+    for (ord, reader) in searcher.segment_readers().iter().enumerate() {
+        let case = json!({"kind": "driver-multi", "corpus": spec.to_json(), "query": q.to_json(), "threshold_bits": threshold.to_bits(), "segment_order": segment_order(searcher), "segment": ord});
+        let mut all: std::collections::HashMap<DocId, Score> = std::collections::HashMap::new();
+        if catch_unwind(AssertUnwindSafe(|| weight.for_each(reader, &mut |d, s| { all.insert(d, s); }))).is_err() {
+            continue;
+        }
+        let mut got: Vec<(DocId, Score)> = vec![];
+        let r = catch_unwind(AssertUnwindSafe(|| weight.for_each_pruning(threshold, reader, &mut |d, s| { got.push((d, s)); threshold })));
+        ctx.report.count(&format!("driver-multi:{}", q.path()));
+        ctx.report.case(&format!("driver-multi|{}|{}|{}|{ord}", spec.to_json(), q.to_json(), threshold.to_bits()), all.len() > 128);
+        if !matches!(r, Ok(Ok(()))) {
+            ctx.report.violation("oracle", "C06:pruning-driver-failed", format!("for_each_pruning on {} (segment {ord}) failed or panicked", q.to_json()), case);
+            continue;
+        }
+        let tol = |a: f32| ulp_tol(n, a, threshold);
+        let mut what = None;
+        let called: std::collections::HashMap<DocId, Score> = got.iter().cloned().collect();
+        for (d, s) in &got {
+            match all.get(d) {
+                None => { what = Some(format!("document {d} offered but it does not match")); break }
+                Some(t) if (t - s).abs() > ulp_tol(n, *t, *s) => { what = Some(format!("document {d} offered with score {s:?}, its score is {t:?}")); break }
+                Some(t) if *t < threshold - tol(*t) => { what = Some(format!("document {d} (score {t:?}) offered although not above the threshold {threshold:?}")); break }
+                _ => {}
+            }
+        }
+        if what.is_none() {
+            if got.windows(2).any(|w| w[0].0 >= w[1].0) {
+                what = Some("documents not offered in ascending order".into());
+            }
+        }
+        if what.is_none() {
+            for (d, t) in &all {
+                if *t > threshold + tol(*t) && !called.contains_key(d) {
+                    what = Some(format!("document {d} scores {t:?} > threshold {threshold:?} but was never offered"));
+                    break;
+                }
+            }
+        }
+        if let Some(what) = what {
+            let mut key = "C06:pruning-driver-differs-from-exhaustive".to_string();
+            let mut extra = String::new();
+            if let Some(terms) = q.wand_terms() {
+                let (ubmax, ubblock) = ub_check(searcher, &built.fields, &terms);
+                match (ubmax, ubblock) {
+                    (Some(w), _) => { key = "C06:maxscore-not-upper-bound".into(); extra = format!(" [UB_max fails: {w}]"); }
+                    (None, Some(w)) => { key = "C06:blockmax-pair-wrong-avg-fieldnorm".into(); extra = format!(" [UB_block fails: {w}]"); }
+                    (None, None) => {}
+                }
+            }
+            ctx.report.violation("oracle", &key, format!("{} via {} on segment {ord} ({} matches), constant threshold {threshold:?}: {what}{extra}", q.to_json(), q.path(), all.len()), case);
+        }
+    }
+}
+
 fn driver_run(ctx: &mut Ctx, spec: &CorpusSpec, built: &Built, searcher: &Searcher, rng: &mut Rng, n: usize) {
+    // multi-clause unions and conjunctions (>= 3 secondaries for the intersection driver)
+    for _ in 0..n {
+        let mut ts: Vec<String> = TERMS.iter().take(5).map(|s| s.to_string()).collect();
+        if rng.chance(1, 4) { ts.push("t:a".into()); }
+        rng.shuffle(&mut ts);
+        let k = 3 + rng.usize_below(3);
+        let ts = ts[..k.min(ts.len())].to_vec();
+        let q = if rng.chance(1, 2) { Q::Inter(ts) } else { Q::Union(ts) };
+        let sample: Vec<Score> = {
+            let query = q.build(&built.fields);
+            searcher.search(query.as_ref(), &AllHits).map(|h| h.into_iter().map(|x| x.2).collect()).unwrap_or_default()
+        };
+        if sample.is_empty() { continue; }
+        let mut sorted = sample.clone();
+        sorted.sort_by(|a, b| b.partial_cmp(a).unwrap());
+        // thresholds near the top of the score distribution (where pruning is active)
+        let th = match rng.below(4) { 0 => sorted[sorted.len() / 2], 1 => sorted[sorted.len() / 10], 2 => sorted[(sorted.len() / 100).min(sorted.len() - 1)], _ => sorted[rng.usize_below(sorted.len().min(20))] };
+        driver_case_multi(ctx, spec, built, searcher, &q, th);
+    }
     for _ in 0..n {
         // one or two scoring clauses: the scores are bit-identical on both paths (IEEE addition commutes)
         let mut ts: Vec<String> = TERMS.iter().take(4).map(|s| s.to_string()).collect();
         rng.shuffle(&mut ts);
-        let q = match rng.below(4) { 0 | 1 => Q::Term(ts[0].clone()), 2 => Q::Union(ts[..2].to_vec()), _ => Q::Inter(ts[..2].to_vec()) };
+        let q = match rng.below(6) {
+            0 | 1 => Q::Term(ts[0].clone()),
+            2 => Q::Union(ts[..2].to_vec()),
+            3 => Q::Inter(ts[..2].to_vec()),
+            4 => Q::Term(["n:a", "n:b", "t:a"][rng.usize_below(3)].to_string()),
+            // mixed fields (both with freqs): different fieldnorm readers and weights in one WAND
+            _ => if rng.chance(1, 2) { Q::Union(vec![ts[0].clone(), "t:a".into()]) } else { Q::Inter(vec![ts[0].clone(), "t:b".into()]) },
+        };
         // thresholds taken from the scores that occur (strictness at equality) and around them
         let sample: Vec<Score> = {
-            let query = q.build(built.fields.body);
+            let query = q.build(&built.fields);
             searcher.search(query.as_ref(), &AllHits).map(|h| h.into_iter().map(|x| x.2).collect()).unwrap_or_default()
         };
         let pick = |rng: &mut Rng| -> f32 {
@@ -1453,6 +1658,19 @@ pub fn replay(ctx: &mut Ctx, case: &Value) {
             let evals = eval_queries(&built, searcher, vec![q]);
             if let Some(qe) = evals.first() {
                 check_search(ctx, &spec, &built, searcher, *t, qe, &kind, case["k"].as_u64().unwrap_or(1) as usize, case["offset"].as_u64().unwrap_or(0) as usize);
+            }
+        }
+        "driver" | "driver-multi" => {
+            let (Some(spec), Some(q)) = (CorpusSpec::from_json(&case["corpus"]), Q::from_json(&case["query"])) else { return };
+            let want: Option<Vec<u64>> = case["segment_order"].as_array().map(|a| a.iter().filter_map(|x| x.as_u64()).collect());
+            let (built, _) = build_with_order(&spec, want.as_ref());
+            let ss = searchers(&built);
+            if case["kind"] == "driver-multi" {
+                driver_case_multi(ctx, &spec, &built, &ss[0].1, &q, f32::from_bits(case["threshold_bits"].as_u64().unwrap_or(0) as u32));
+            } else {
+                let pol = case["policy"].as_str().unwrap_or("");
+                let policy = if pol.starts_with("Staircase") { Policy::Staircase } else if let Some(k) = pol.strip_prefix("KthBest(").and_then(|x| x.strip_suffix(')')).and_then(|x| x.parse().ok()) { Policy::KthBest(k) } else if let Some(b) = pol.strip_prefix("Const(").and_then(|x| x.strip_suffix(')')).and_then(|x| x.parse().ok()) { Policy::Const(b) } else { Policy::Staircase };
+                driver_case(ctx, &spec, &built, &ss[0].1, &q, &policy, f32::from_bits(case["initial_bits"].as_u64().unwrap_or(0) as u32));
             }
         }
         "known-corpus" => known_corpora(ctx),
